@@ -29,7 +29,7 @@ type switchSite struct {
 }
 
 func (s switchSite) key() string {
-	k := fmt.Sprintf("%s.%s switch(%s)", short(s.Pkg.PkgPath), s.Func, s.Subject)
+	k := fmt.Sprintf("%s.%s switch(%s)", short(s.Pkg.PkgPath), pinnedQualified(short(s.Pkg.PkgPath), s.Func), s.Subject)
 	if s.Ordinal > 0 {
 		k += fmt.Sprintf("#%d", s.Ordinal+1)
 	}
